@@ -119,6 +119,39 @@ def case_st(draw):
     return (idents, n, seed, (lo, hi), checksums, tail_cut, cuts)
 
 
+def interleaved_oracle(case) -> Info:
+    """Two reader instances alive at once, each fed its own clean stream, calls alternating."""
+    readers, chunk_lists, sent = [], [], []
+    for sub in case:
+        tail, readouts = build_stream(sub)
+        stream = tail + b"".join(readouts)
+        readers.append(dlde.ModeDReader())
+        chunk_lists.append(chunks_of(stream, tuple(sub[6]), readouts))
+        sent.append(readouts)
+    got = [[] for _ in readers]
+    for k in range(max(len(c) for c in chunk_lists)):
+        for i, r in enumerate(readers):
+            if k < len(chunk_lists[i]):
+                got[i].extend(guarded(r.read, chunk_lists[i][k], what="ModeDReader.read"))
+    for i, (g, s_) in enumerate(zip(got, sent)):
+        gb = [o.as_bytes for o in g]
+        if gb != s_ or not all(o.is_valid for o in g):
+            fail(f"reader #{i} of {len(readers)} interleaved readers: sent {len(s_)} readouts, got {len(gb)} ({sum(1 for o in g if o.is_valid)} valid); alone the same stream is delivered completely", sig="interleaved")
+    multi = all(len(c) > 1 for c in chunk_lists)
+    return Info(nontrivial=multi, classes=(f"readers:{len(readers)}",))
+
+
+@st.composite
+def interleaved_case_st(draw):
+    out = []
+    for _ in range(2):
+        c = list(draw(case_st()))
+        c[1] = min(c[1], 25)  # keep the two streams small
+        c[3] = (min(c[3][0], 10), min(c[3][1], 12))
+        out.append(tuple(c))
+    return out
+
+
 def build() -> Check:
     return Check(
         pid="C05",
@@ -129,11 +162,15 @@ def build() -> Check:
             "preceded by the tail of a readout, x splittings: single call, bytewise (small streams), random multi-cut, fixed chunk sizes "
             "1..65536 with a drawn initial offset, chunk = first readout's length +-k. Non-trivial = (>=30 readouts or >8 KiB) with at "
             "least one chunk boundary inside a readout and fewer than 1 in 10 boundaries inside an identification line. The class "
-            "'no-call-starts-between-readouts' (no read() call begins exactly at a readout boundary) is counted. Distinct = case hash."
+            "'no-call-starts-between-readouts' (no read() call begins exactly at a readout boundary) is counted. interleaved: two reader instances alive at once, "
+            "each fed its own clean stream with alternating read() calls. Distinct = case hash."
         ),
         assumptions=[
             "Readouts are expanded deterministically from drawn (identification lines, size range, seed) so that 100+ KiB streams fit Hypothesis's entropy budget.",
             "Every readout is < 8000 bytes ('well below 8 KiB'); identification text contains neither '/' nor '!' (IEC 62056-21).",
         ],
-        clauses=[HypClause("clean", case_st, oracle, quick=2500, thorough=40000)],
+        clauses=[
+            HypClause("clean", case_st, oracle, quick=2500, thorough=40000),
+            HypClause("interleaved", interleaved_case_st, interleaved_oracle, quick=1200, thorough=25000, doc="two reader instances fed alternately, each with its own clean stream"),
+        ],
     )
